@@ -328,3 +328,23 @@ def validate_chunks(module, trace_name, chunks, cfg=None, parallel=4, timeout=12
         return out
     with ThreadPoolExecutor(max_workers=parallel) as ex:
         return list(ex.map(one, range(len(chunks))))
+
+
+def classify_panic(out):
+    """A Go panic in a harness run: returns a violation dict if the first non-runtime frame after the panic is
+    in the code under test (/repo, not an overlaid zz_verif file), else None (harness bug)."""
+    i = out.find("panic: ")
+    if i < 0:
+        return None
+    block = out[i:i + 6000]
+    msg = block.splitlines()[0]
+    if "deadlock: " in msg and "bubble" in msg:
+        return dict(sig="goroutines-stranded", desc="all goroutines of the scenario are blocked for good (a caller or a client goroutine is stranded):\n" + block[:2500])
+    frames = re.findall(r"\n\t(/\S+\.go):(\d+)", block)
+    for path, line in frames:
+        if "/go1.26" in path or "/usr/lib/go" in path or "/src/runtime/" in path or "/src/testing/" in path or "/pkg/mod/" in path:
+            continue
+        if path.startswith(REPO + "/") and "zz_verif" not in path and "/internal/verifsim/" not in path:
+            return dict(sig="client-panic", desc="the client panicked at %s:%s: %s\n%s" % (path, line, msg, block[:2000]))
+        return None
+    return None
